@@ -7,7 +7,9 @@ Model (amd64: word size 8, max alignment 8) of
   * honnef.co/go/tools/go/gcsizes: Sizeof, Alignof, Offsetsof, align      (`gcs*`);
   * cmd/structlayout: sizes (flattening into field + padding records)      (`lay*`);
   * cmd/structlayout-optimize: combine, byAlignAndSize.Less, optimize, offsetsof,
-    pad, size                                                              (`combine`, `less`, `optimize`, `pad`).
+    pad, size                                                              (`combine`, `less`, `optimize`, `pad`);
+    `combine` as of /repo 169e4a6 (each group keeps its own maximal alignment, its extent
+    reaches the end of its last member and is rounded up to that alignment).
 Core Lean only.
 
 Modelling decisions
@@ -124,6 +126,38 @@ end
 /-- unsafe.Offsetof of every field of a struct with these fields. -/
 def gcOffsetsof (fs : Fields) : List Nat := gcOffsets 0 (gcInfos fs)
 
+def Fields.isNil : Fields → Bool
+  | .nil => true
+  | .cons .. => false
+
+/-! ### the compiler's view of the flattened struct (specification of structlayout's field records) -/
+
+/-- a leaf of the flattening of a struct: a field that is not itself a struct with fields. -/
+structure Leaf where
+  path : List String
+  off : Nat
+  size : Nat
+  align : Nat
+deriving DecidableEq, Repr
+
+mutual
+/-- the leaves of a field of type `u` (`orig` before stripping names) at absolute offset `off`,
+by the compiler's rules only. -/
+def gcLeavesTy (path : List String) (off : Nat) (orig : Ty) : Ty → List Leaf
+  | .named u => gcLeavesTy path off orig u
+  | .struct fs =>
+    if fs.isNil then [⟨path, off, gcSizeof orig, gcAlignof orig⟩] else gcLeavesFields path off 0 fs
+  | .prim _ => [⟨path, off, gcSizeof orig, gcAlignof orig⟩]
+  | .array _ _ => [⟨path, off, gcSizeof orig, gcAlignof orig⟩]
+/-- the leaves of the fields `fs` of a struct at `base`, the running offset being `o`
+(`calcStructOffset`). -/
+def gcLeavesFields (path : List String) (base o : Nat) : Fields → List Leaf
+  | .nil => []
+  | .cons nm t rest =>
+    gcLeavesTy (path ++ [nm]) (base + roundUp o (gcAlignof t)) t t ++
+    gcLeavesFields path base (roundUp o (gcAlignof t) + gcSizeof t) rest
+end
+
 /-! ## go/gcsizes (transliteration of sizes.go) -/
 
 /-- `align` of sizes.go and of structlayout-optimize: `y := x + a - 1; y - y%a`. -/
@@ -211,10 +245,6 @@ deriving DecidableEq, Repr
 
 def Rec.padding (a b : Nat) : Rec := ⟨[], a, b, b - a, 0, true⟩
 def Rec.leaf (path : List String) (off size al : Nat) : Rec := ⟨path, off, off + size, size, al, false⟩
-
-def Fields.isNil : Fields → Bool
-  | .nil => true
-  | .cons .. => false
 
 /-- the tail of `sizes`: the last record of a non-zero-sized struct gets the byte the
 compiler adds after a zero-sized last field; then the struct's tail padding. -/
